@@ -429,6 +429,23 @@ func graphUnits() []Unit {
 		f.P.SourceCodeInfo = sci
 		out = append(out, Unit{ID: id, Label: "comments (block terminators, directives, CRLF, templates) on every kind of declaration; deprecated options everywhere; custom json names", Files: []*descriptorpb.FileDescriptorProto{f.P}, Expect: "ok"})
 	}
+	// go_package of the form "import/path;name": the package clause differs from the directory name; used from another package
+	{
+		id := "g_goalias"
+		lib := NewFile("c12/"+id+"/lib.proto", "c12."+id+".lib", GenRoot+"c12/"+id+"_lib;aliaslib")
+		le := lib.Enum("LE", "LE_ZERO", 0, "LE_ONE", 1)
+		lm := lib.Msg("LM")
+		lm.Field("e", 1, E(le))
+		lm.Map("m", 2, String, S(Int32))
+		app := NewFile("c12/"+id+"/app.proto", "c12."+id, GenRoot+"c12/"+id+";aliasapp", "c12/"+id+"/lib.proto")
+		am := app.Msg("AppMsg")
+		am.Field("l", 1, M(lm.Full()))
+		am.Rep("ls", 2, M(lm.Full()))
+		am.Map("ml", 3, Int32, M(lm.Full()))
+		am.Field("e", 4, E(le))
+		am.OneofField("o", "ol", 5, M(lm.Full()))
+		out = append(out, Unit{ID: id, Label: "go_package with an explicit package name (path;name), used across packages", Files: []*descriptorpb.FileDescriptorProto{lib.P, app.P}, Expect: "ok"})
+	}
 	// a proto2 file next to a proto3 file: no output for the proto2 one
 	{
 		id := "g_proto2"
